@@ -131,7 +131,9 @@ def converge_verdicts(ctx, case_list, tag):
             f.write("\n".join(c) + "\n")
     if os.path.exists(out):
         os.remove(out)
-    rc, log = ctx.harness("oracle", "converge", ops, out, timeout=3000)
+    # ambient histories need the ambient feature switched on when the process starts (features are read at start-up)
+    env_extra = {"PILOT_ENABLE_AMBIENT": "true"} if any(c[0].split()[-1] == "ambient" for c in case_list) else None
+    rc, log = ctx.harness("oracle", "converge", ops, out, timeout=3000, env_extra=env_extra)
     v = ctx.read_lines(out) if os.path.exists(out) else []
     if rc != 0 or len(v) != len(case_list):
         return None, log
@@ -163,6 +165,22 @@ def converge_fingerprint(case, verdict):
             if toks[0] == "step":
                 changed = ":" + toks[1] + "-" + toks[2].split("-")[0]  # object ids look like `dr-a`: the prefix is the kind
     return "converge:%s:%s%s" % (clause, "+".join(sorted(kinds)) or "-", changed)
+
+
+SOFT_KINDS = ("stale-san", "stale-mx")
+
+
+def converge_fingerprints(case, verdict):
+    """One fingerprint per (type, kind) when every difference is of a classified kind (each is a recorded finding of its own);
+    otherwise the single fingerprint of converge_fingerprint."""
+    fp = converge_fingerprint(case, verdict)
+    parts = fp.split(":")
+    if len(parts) >= 4 and parts[-1] in SOFT_KINDS or len(parts) >= 4:
+        body = fp[len("converge:" + parts[1] + ":"):]
+        kinds = body.split("+")
+        if all(k.count(":") == 1 and k.split(":")[1] in SOFT_KINDS for k in kinds):
+            return ["converge:%s:%s" % (parts[1], k) for k in kinds]
+    return [fp]
 
 
 def converge_minimise(ctx, case, verdict, budget=10):
@@ -204,16 +222,17 @@ def converge_minimise(ctx, case, verdict, budget=10):
     return best, best_v
 
 
-def run_converge(ctx, n, sweep=False):
+def run_converge(ctx, n, sweep=False, ambient=False):
     """sweep=False: corpus + n random histories. sweep=True: every single-change history of the grammar (targeted search
-    when a tie is broken; part of the thorough tier)."""
+    when a tie is broken; part of the thorough tier). ambient=True: histories incl. the ambient objects, with a waypoint
+    proxy and a ztunnel-like delta client (PILOT_ENABLE_AMBIENT=true)."""
     import verif as V
-    name = "converge-sweep" if sweep else "converge"
+    name = "converge-sweep" if sweep else ("converge-ambient" if ambient else "converge")
     st = {"cases": 0, "ops": 0, "agree": True}
     ctx.streams[name] = st
     case_list = []
     cdir = os.path.join(V.HARNESS, "corpus", ctx.pid)
-    if os.path.isdir(cdir) and not sweep:
+    if os.path.isdir(cdir) and not sweep and not ambient:
         for f in sorted(os.listdir(cdir)):
             if f.startswith("converge.") and f.endswith(".ops"):
                 case_list += split_cases(ctx.read_lines(os.path.join(cdir, f)))
@@ -226,7 +245,7 @@ def run_converge(ctx, n, sweep=False):
         ctx.tie_broken("harness-gen:converge", log)
         return
     case_list += split_cases(ctx.read_lines(g))
-    verdicts, log = converge_verdicts(ctx, case_list, "sweep" if sweep else "run")
+    verdicts, log = converge_verdicts(ctx, case_list, name)
     if verdicts is None:
         ctx.tie_broken("stream-run:converge", "the converge oracle did not complete:\n" + log[-3000:])
         st["agree"] = False
@@ -246,9 +265,10 @@ def run_converge(ctx, n, sweep=False):
                 skipped += int(tok[8:])
         if v.startswith("FAIL"):
             ctx.log("converge case %d: %s" % (i, v[:400]))
-            fp = converge_fingerprint(c, v)
+            fps = converge_fingerprints(c, v)
             small, small_v = c, v
-            if not any(k.get("status") == "known" and k.get("fingerprint") == fp for k in ctx.known):
+            known = [fp for fp in fps if any(k.get("status") == "known" and k.get("fingerprint") == fp for k in ctx.known)]
+            if len(known) != len(fps):
                 # confirm that the difference is deterministic before it becomes a verdict: it must show again in BOTH of
                 # two more runs of the same history; otherwise it is logged and counted, not reported (the check must
                 # never be flaky; see notes/C01.md "unreproduced differences")
@@ -270,12 +290,13 @@ def run_converge(ctx, n, sweep=False):
                     small, small_v = converge_minimise(ctx, c, v)  # shrink the first one only (each run costs seconds)
                 else:
                     small, small_v = c, v
-                fp = converge_fingerprint(small, small_v)
+                fps = converge_fingerprints(small, small_v)
             st["agree"] = False
-            ctx.violation(fp, "after the history quiesced a long-lived client holds resources that differ from a fresh generation: "
-                          + small_v.split(" ||")[0][:300],
-                          {"stream": "converge", "ops": small, "oracle_verdict": small_v[:6000], "original_case": c,
-                           "original_verdict": v[:3000]}, True)
+            for fp in fps:
+                ctx.violation(fp, "after the history quiesced a long-lived client holds resources that differ from a fresh generation: "
+                              + small_v.split(" ||")[0][:300],
+                              {"stream": "converge", "ops": small, "oracle_verdict": small_v[:6000], "original_case": c,
+                               "original_verdict": v[:3000]}, True)
     ctx.counters["%s.type-pushes" % name] = pushed
     ctx.counters["%s.type-skips" % name] = skipped
     ctx.log("stream %s: %d histories (%d corpus), %d (proxy,type) pushes and %d skips observed, %s"
@@ -290,6 +311,15 @@ LOCAL_KNOWN = [
      "what": "service accounts of a service whose last endpoint of a shard disappeared stay in the SAN list of its clusters "
              "(EndpointIndex.UpdateServiceEndpoints returns before updateShardServiceAccount when the endpoint list is empty): "
              "a long-lived istiod keeps trusting them, a cold-started one does not"},
+    {"property_id": "C01", "status": "known", "fingerprint": "converge:stale-vs-cold-start:CDS:stale-mx",
+     "what": "ambient interop (PILOT_ENABLE_AMBIENT=true): cluster metadata disable_mx/external derived from endpoint membership is "
+             "not refreshed on endpoint-only changes (same finding as converge:stale-vs-fresh-client:CDS:stale-mx, seen against the "
+             "cold start)"},
+    {"property_id": "C01", "status": "known", "fingerprint": "converge:stale-vs-fresh-client:CDS:stale-mx",
+     "what": "ambient interop (PILOT_ENABLE_AMBIENT=true): the cluster metadata disable_mx/external of sidecars and gateways is "
+             "derived from the endpoints of the service (PushContext.AllInstancesSupportHBONE: the PushContext instance index, not "
+             "rebuilt on endpoint-only changes, combined with live ambient-index lookups), but endpoint-only changes skip CDS: "
+             "connected proxies keep the old flag and newly connecting proxies get one computed from stale instances"},
 ]
 
 
@@ -326,7 +356,8 @@ def run(ctx):
         return
     n = ctx.n(3000, 60000)
     ctx.diff_stream("needs", n, oracle=oracle)
-    run_converge(ctx, ctx.n(40, 1500))
+    run_converge(ctx, ctx.n(30, 700))
+    run_converge(ctx, ctx.n(12, 200), ambient=True)
     tie_broken = (not proved) or not ctx.streams.get("needs", {}).get("agree", True)
     found = any(v["found"] and v["fingerprint"].startswith("converge") for v in ctx.violations)
     if (tie_broken and not found) or not ctx.quick():
